@@ -91,8 +91,11 @@ func Load(repo string, tags string) (*World, error) {
 		Env:   env(),
 		Tests: false,
 	}
+	// -trimpath makes the build-cache keys of the export data independent of the
+	// directory, so scratch copies of the tree (mutant self-tests) reuse the cache.
+	cfg.BuildFlags = []string{"-trimpath"}
 	if tags != "" {
-		cfg.BuildFlags = []string{"-tags=" + tags}
+		cfg.BuildFlags = append(cfg.BuildFlags, "-tags="+tags)
 	}
 	initial, err := packages.Load(cfg, "./...")
 	if err != nil {
